@@ -199,7 +199,7 @@ func mutationsFor(rel, class string, orig []byte, rng *rand.Rand, thorough bool)
 
 // tokenMutations damages the fields of a text file (HEAD, branch, config, reflog) rather than single bytes: every
 // blank-, tab- or newline-separated field is shortened to a few lengths (ids of 2, 4, 6, 7, 8 or 39 digits), emptied,
-// lengthened, split by a blank and joined with its neighbour. Decoders that check a field's alphabet but not its
+// lengthened (by one character, by two and by eight), split by a blank and joined with its neighbour. Decoders that check a field's alphabet but not its
 // length, or index into a field, fail only on such shapes.
 func tokenMutations(rel string, orig []byte, thorough bool) []mutation {
 	var out []mutation
@@ -240,6 +240,11 @@ func tokenMutations(rel string, orig []byte, thorough bool) []mutation {
 			}
 		}
 		add("field-long", t.a, splice(t.a, t.b, append(append([]byte{}, w...), w[len(w)-1])))
+		// (an id lengthened by an even number of digits still decodes as hexadecimal: 21 and 24 bytes instead of 20)
+		if len(w) >= 2 {
+			add("field-long2", t.a, splice(t.a, t.b, append(append([]byte{}, w...), w[len(w)-2:]...)))
+			add("field-long8", t.a, splice(t.a, t.b, append(append([]byte{}, w...), []byte("00000000")...)))
+		}
 		for _, at := range []int{1, 2, 4, 6, 7} {
 			if at < len(w) {
 				add("field-split", t.a+at, splice(t.a+at, t.a+at, []byte{' '}))
